@@ -28,13 +28,15 @@ def ma2(s1, s2, k):
 
 
 def cond_rate(s, k):
+    # the branches differ AT the boundary (s == 1.0 is one of the states): `>` read as `>=` is visible
     if s > 1.0:
         return k * s
-    return k * s * s
+    return k * s * s + 0.25
 
 
 def cond_expr(s, k):
-    return k * s if s <= 2.0 else 2.0 * k
+    # differs at the boundary (s == 2.0 is one of the states): `<=` read as `<` is visible
+    return k * s if s <= 2.0 else 3.0 * k
 
 
 def rootsq(s, k):
